@@ -2,8 +2,8 @@
 Line-granular deterministic thread scheduler built on sys.monitoring (PEP 669).
 
 * install()  - must run BEFORE eliot is imported: replaces the factories threading.Lock, threading.RLock,
-               queue.SimpleQueue, queue.Queue (for callers inside the eliot package only) and threading.Thread
-               (a subclass, for everyone) by scheduler-aware versions. Without an active schedule, and for
+               queue.SimpleQueue (for callers inside the eliot package only) and threading.Thread / threading.Condition
+               (subclasses, for everyone; queue.Queue and threading.Event build on Condition) by scheduler-aware versions. Without an active schedule, and for
                threads that are not registered with it, they behave exactly like the originals.
 * instrument(modules) - enables LINE events on every code object defined in the given eliot modules.
 * Scheduler(plan)     - plan = {"order": [thread names, highest priority first], "changes": [[name, k], ...]}
@@ -25,6 +25,8 @@ _real_RLock = threading.RLock
 _real_Thread = threading.Thread
 _real_SimpleQueue = _queue.SimpleQueue
 _real_Queue = _queue.Queue
+_real_Condition = threading.Condition
+_tl = threading.local()
 
 ACTIVE = None  # the Scheduler of the schedule being executed, or None
 RELEASE_HOOKS = []  # callables(lock) run while the lock is still held, just before it is released
@@ -146,17 +148,32 @@ def SimpleQueue():
     return _real_SimpleQueue()
 
 
-class SchedQueue(SchedSimpleQueue):
-    """Enough of queue.Queue (unbounded) for the writer pattern: put/get/task_done/join are not needed by eliot."""
+class SchedCondition(_real_Condition):
+    """threading.Condition whose untimed wait() by a registered thread is a scheduler switch point instead of a C-level block.
 
-    def __init__(self, maxsize=0):
-        SchedSimpleQueue.__init__(self)
+    queue.Queue / LifoQueue / threading.Event build on Condition, so code under test that switches to those stays schedulable."""
 
+    def wait(self, timeout=None):
+        s = ACTIVE
+        if s is None or timeout is not None or getattr(_tl, "raw", False) or s.me() is None:
+            return _real_Condition.wait(self, timeout)
+        if not self._is_owned():
+            raise RuntimeError("cannot wait on un-acquired lock")
+        waiter = _thread.allocate_lock()
+        waiter.acquire()
+        self._waiters.append(waiter)
+        saved = self._release_save()
+        try:
+            s.blocking_op(lambda: waiter.acquire(False), "condition.wait")
+            return True
+        finally:
+            self._acquire_restore(saved)
 
-def Queue(maxsize=0):
-    if _caller_in_eliot() and maxsize == 0:
-        return SchedQueue()
-    return _real_Queue(maxsize)
+    def notify(self, n=1):
+        _real_Condition.notify(self, n)
+        s = ACTIVE
+        if s is not None:
+            s.state_changed()
 
 
 class SchedThread(_real_Thread):
@@ -170,7 +187,11 @@ class SchedThread(_real_Thread):
         if s is not None and s.me() is not None and self._vf_name is None:
             # a thread started by code under test (e.g. ThreadedWriter's reader): register it dynamically
             self._vf_name = s.preregister_dynamic()
-        return _real_Thread.start(self)
+        _tl.raw = True  # Thread.start waits on an Event for the new thread's bootstrap: a real, bounded wait
+        try:
+            return _real_Thread.start(self)
+        finally:
+            _tl.raw = False
 
     def run(self):
         s = ACTIVE
@@ -206,8 +227,8 @@ def install():
     threading.Lock = Lock
     threading.RLock = RLock
     threading.Thread = SchedThread
+    threading.Condition = SchedCondition
     _queue.SimpleQueue = SimpleQueue
-    _queue.Queue = Queue
     INSTALLED = True
 
 
@@ -279,7 +300,7 @@ class Scheduler(object):
 
     def __init__(self, plan, initial):
         """plan: {"order": [...], "changes": [[name, k], ...]}; initial: names of the threads the harness will start."""
-        self.cv = threading.Condition(_real_Lock())
+        self.cv = _real_Condition(_real_Lock())
         self.order = list(plan.get("order", []))
         self.changes = set((n, k) for n, k in plan.get("changes", []))
         self.threads = {}
@@ -524,3 +545,19 @@ def sampled_plans(rng, names, events, n, depth_choices=(2, 3)):
             hi = max(1, int(events.get(nm, 1) * 1.3))
             changes.append([nm, rng.randint(1, hi)])
         yield {"order": order, "changes": changes}
+
+
+def wait_until(pred):
+    """Scheduler-friendly wait for a condition established by another registered thread."""
+    s = ACTIVE
+    if s is None or s.me() is None:
+        while not pred():
+            time.sleep(0.0005)
+        return
+    s.blocking_op(pred, "wait")
+
+
+def notify():
+    s = ACTIVE
+    if s is not None:
+        s.state_changed()
